@@ -671,7 +671,8 @@ class Sim:
                 if "-gapopen" in opts or "-gapextend" in opts:
                     self.fail("launch:gap-penalty", kind=k, got=opts)
             else:
-                if abs(float(opts.get("-gapopen", "nan")) - gp[0]) > 0.05 or abs(float(opts.get("-gapextend", "nan")) - gp[1]) > 0.05:
+                go, ge = opts.get("-gapopen"), opts.get("-gapextend")
+                if go is None or ge is None or not (abs(float(go) - gp[0]) <= 0.05 and abs(float(ge) - gp[1]) <= 0.05):
                     self.fail("launch:gap-penalty", kind=k, got=[opts.get("-gapopen"), opts.get("-gapextend")], expected=list(gp))
             self.check_matrix(rec, rep, "-matrix" in opts)
         elif k == "muscle5":
